@@ -117,6 +117,7 @@ P = [
  ('seeded-C07-1-rename-entry-only-if-source-durable', 'C07', '/verif/seeded/C07-1/patch.diff'),
  ('seeded-C07-2-crash-skips-finished-hosts', 'C07', '/verif/seeded/C07-2/patch.diff'),
  ('seeded-C18-2-ring-write-hole-not-charged', 'C18', '/verif/seeded/C18-2/patch.diff'),
+ ('seeded-C18-3-direct-read-gets-cache-hit-latency', 'C18', '/verif/seeded/C18-3/patch.diff'),
 ]
 
 def sh(cmd, **kw):
